@@ -26,10 +26,12 @@ Record fixes := mk_fixes {
   fx_call : bool;           (* C03-call-replace-use-repeated-args *)
   fx_phi_replace : bool;    (* C03-phi-replace-use-repeated *)
   fx_phi_incoming : bool;   (* C03-phi-incoming-shared-value *)
-  fx_jump_delete : bool     (* C03-jump-delete *)
+  fx_jump_delete : bool;    (* C03-jump-delete *)
+  fx_setter : bool;         (* C03-value-use-setter *)
+  fx_rfb : bool             (* C03-jump-remove-from-block *)
 }.
-Definition as_found := mk_fixes false false false false false.
-Definition all_fixed := mk_fixes true true true true true.
+Definition as_found := mk_fixes false false false false false false false.
+Definition all_fixed := mk_fixes true true true true true true true.
 
 Inductive ikind := KPlain | KCall | KPhi | KJump.
 Record inst := mk_inst {
@@ -142,9 +144,19 @@ Definition del_use (s : store) (i v : oid) : result store :=
 (* value_use setter:  instruction.<name> = v *)
 Definition set_var (s : store) (i : oid) (name : string) (v : oid) : result store :=
   x <- get_i s i ;;
-  s1 <- match sget name (i_vars x) with Some o => del_use s i o | None => Ok s end ;;
-  x1 <- get_i s1 i ;;
-  add_use (put_i s1 i (with_vars x1 (sset name v (i_vars x1)))) i v.
+  if fx_setter fx then
+    (* repaired: store first, release the old value only if no other slot still holds it *)
+    let x1 := with_vars x (sset name v (i_vars x)) in
+    let s1 := put_i s i x1 in
+    s2 <- match sget name (i_vars x) with
+          | Some o => if memn o (map snd (i_vars x1)) then Ok s1 else del_use s1 i o
+          | None => Ok s1
+          end ;;
+    add_use s2 i v
+  else
+    s1 <- match sget name (i_vars x) with Some o => del_use s i o | None => Ok s end ;;
+    x1 <- get_i s1 i ;;
+    add_use (put_i s1 i (with_vars x1 (sset name v (i_vars x1)))) i v.
 
 (* Instruction.replace_use, as found: per matching slot del_use / store / add_use *)
 Fixpoint ru_loop (s : store) (i old new : oid) (names : list string) : result store :=
@@ -354,9 +366,22 @@ Definition remove_instruction (s : store) (i : oid) : result store :=
       then Ok (put_blk (put_i s i (with_block x None)) b (remove1 i (get_blk s b)))
       else Internal ValueErrorI
   end.
+(* repaired JumpBase.remove_from_block: pop all targets, discard the jump from their references *)
+Fixpoint discard_targets (s : store) (i : oid) (blocks : list oid) : store :=
+  match blocks with
+  | [] => s
+  | b :: r => discard_targets (put_refs s b (os_discard i (get_refs s b))) i r
+  end.
 Definition remove_from_block (s : store) (i : oid) : result store :=
-  x <- get_i s i ;;
-  s1 <- del_uses s i (i_uses x) ;;
+  x0 <- get_i s i ;;
+  let s0 := match i_kind x0 with
+            | KJump => if fx_rfb fx
+                       then put_i (discard_targets s i (rev (map snd (i_bmap x0)))) i (with_bmap x0 [])
+                       else s
+            | _ => s
+            end in
+  x <- get_i s0 i ;;
+  s1 <- del_uses s0 i (i_uses x) ;;
   x1 <- get_i s1 i ;;
   match i_block x1 with
   | None => Internal (OtherI 2)
